@@ -378,6 +378,14 @@ EvTake == /\ Is("tk") /\ LET S == Settle(frames, done) IN
              /\ done' = IF pending # <<>> THEN S.dn \cup {Head(pending).uid} ELSE S.dn
              /\ frames' = S.fr /\ PvOk(S.fr)
           /\ UNCHANGED <<lst, flt, nn, nf, pins>>
+\* takeEvent + dispatch(queuedEvent): the head leaves the queue (it is the caller's now) and is dispatched like any direct dispatch
+EvTakeDispatch == /\ Is("td") /\ LET S == Settle(frames, done) IN
+                     /\ InCtx(S.fr) /\ Ev.r = (IF pending # <<>> THEN 1 ELSE 0)
+                     /\ IF pending = <<>> THEN frames' = S.fr /\ done' = S.dn /\ UNCHANGED pending /\ PvOk(S.fr)
+                        ELSE /\ Ev.u = Head(pending).uid /\ Ev.a = Head(pending).v /\ Ev.o = Head(pending).e
+                             /\ pending' = Tail(pending) /\ done' = S.dn \cup {Head(pending).uid}
+                             /\ frames' = Append(S.fr, NewD(Ev.o, Ev.u, Ev.a, TRUE, 0))
+                  /\ UNCHANGED <<lst, flt, nn, nf, pins>>
 EvClear == /\ Is("cl") /\ LET S == Settle(frames, done) IN
               /\ InCtx(S.fr) /\ pending' = <<>> /\ done' = S.dn \cup {pending[i].uid : i \in 1..Len(pending)}
               /\ frames' = S.fr /\ PvOk(S.fr)
@@ -405,7 +413,7 @@ Next == \/ ((EvAppendL \/ EvPrependL \/ EvInsertL \/ EvAppendCtr \/ EvAppendCond
         \/ ((EvEnumBegin \/ EvEnumVisit \/ EvEnumRet \/ EvEnumEnd) /\ UR)
         \/ ((EvRemoveL \/ EvHasAnyL \/ EvOwnsL \/ EvForEachL \/ EvVisitL \/ EvAppendF \/ EvRemoveF
              \/ EvDispatchBegin \/ EvDispatchEnd \/ EvFilterBegin \/ EvFilterEnd \/ EvRet
-             \/ EvEnqueue \/ EvProcessBegin \/ EvPredBegin \/ EvPredEnd \/ EvProcessEnd \/ EvPeek \/ EvTake \/ EvClear \/ EvEmptyQ \/ EvEndNoDrain) /\ UR)
+             \/ EvEnqueue \/ EvProcessBegin \/ EvPredBegin \/ EvPredEnd \/ EvProcessEnd \/ EvPeek \/ EvTake \/ EvTakeDispatch \/ EvClear \/ EvEmptyQ \/ EvEndNoDrain) /\ UR)
         \/ ((EvEnter \/ EvCondBegin \/ EvCondEnd
              \/ EvSAdd \/ EvSRemove \/ EvSReset \/ EvSTarget \/ EvSMoveConstruct \/ EvSMoveAssign \/ EvSSwap \/ EvSDestroy \/ EvSCreate) /\ UA)
         \/ EvReset
